@@ -35,6 +35,7 @@ def resultJson (r : StmtResult) : Json :=
     ("cols", Json.arr (r.cols.map Json.str).toArray),
     ("rows", Json.arr (r.rows.map (fun row => Json.arr (row.map valueToWire).toArray)).toArray),
     ("n", Json.num ⟨r.affected, 0⟩)] |>.mergeObj (if r.tieSensitive then Json.mkObj [("tie", true)] else Json.mkObj [])
+    |>.mergeObj (if r.rolledBack then Json.mkObj [("rb", true)] else Json.mkObj [])
 
 def natField (j : Json) (k : String) : Except String Nat :=
   match j.getObjVal? k with
